@@ -491,6 +491,119 @@ theorem C16_repair_read_guards (i : RepairIn)
       simp only [Bool.and_eq_true, beq_iff_eq] at hm
       exact h hm.2.1
 
+/-! ### Node repair acts on the Node's own NodeClaim (clusters with launching NodeClaims and Nodes without a
+    provider id) -/
+
+/-- `nodeutils.GetNodeClaims` returns "no NodeClaim" for a Node without `spec.providerID` *before* it lists the
+    NodeClaims by provider id (the `status.providerID` index lists every NodeClaim that is still launching under
+    the empty provider id). `repairT` is the guarded lookup exactly as long as this holds. -/
+theorem fact_nodeclaim_lookup_skips_empty_provider_id :
+    Karp.Gen.Reapers.nodeClaimLookupSkipsEmptyProviderID = true := by decide
+
+/-- **C16_repair_target** — in a cluster with any number of NodeClaims (the Node's own, other Nodes', NodeClaims
+    still launching without a provider id), every NodeClaim node repair issues a Delete for is the reconciled
+    Node's own (same, non-empty provider id) and the repair trigger holds for that Node: its unhealthy condition
+    lasted the toleration and the breaker of that NodeClaim's pool is closed. -/
+theorem C16_repair_target (i : RepairTIn) (d : String) (h : d ∈ (repairT i).deleted) :
+    repairTargetMayDelete Karp.Gen.Reapers.allowedUnhealthyPercent i d = true := by
+  rw [repairT_eq_guarded fact_nodeclaim_lookup_skips_empty_provider_id] at h
+  obtain ⟨c, hc, hn, hp, hpid, _, hdel⟩ := repairTWith_deleted i d h
+  unfold repairTargetMayDelete
+  simp only [List.any_eq_true, Bool.and_eq_true, beq_iff_eq]
+  refine ⟨c, hc, ⟨hn, ?_⟩, C16_repair _ hdel⟩
+  unfold claimIsOfNode
+  simp [hpid, hp]
+
+/-- against the documented 20% — the predicate the driver evaluates on the real controller's Deletes -/
+theorem C16_repair_target_documented (i : RepairTIn) (d : String) (h : d ∈ (repairT i).deleted) :
+    repairTargetMayDelete documentedUnhealthyPercent i d = true := by
+  have : Karp.Gen.Reapers.allowedUnhealthyPercent = documentedUnhealthyPercent := fact_breaker_percent.1
+  rw [← this]
+  exact C16_repair_target i d h
+
+/-- **C16_repair_target_no_provider_id** — reconciling a Node that has no provider id does nothing (no Delete, no
+    termination timestamp, no error — the NodeClaim LIST is not even issued, so its outcome is irrelevant),
+    whichever NodeClaims exist — in particular however many are still launching with an equally empty provider
+    id — and the specification permits no Delete at all. -/
+theorem C16_repair_target_no_provider_id (i : RepairTIn) (h : i.nodePid = "") :
+    repairT i = {} ∧ ∀ pct d, repairTargetMayDelete pct i d = false := by
+  constructor
+  · rw [repairT_eq_guarded fact_nodeclaim_lookup_skips_empty_provider_id]
+    unfold repairTWith nodeClaimsForWith; simp [h]
+  · intro pct d
+    unfold repairTargetMayDelete claimIsOfNode
+    simp [h]
+
+/-- **C16_repair_target_launching_claims_untouched** — a NodeClaim that is still launching (no provider id) is
+    never deleted by node repair, whichever Node is reconciled, and the specification never permits it. -/
+theorem C16_repair_target_launching_claims_untouched (i : RepairTIn) (c : TClaim) (hc : c ∈ i.claims)
+    (hp : c.pid = "") (huniq : ∀ c' ∈ i.claims, c'.name = c.name → c' = c) :
+    c.name ∉ (repairT i).deleted ∧ ∀ pct, repairTargetMayDelete pct i c.name = false := by
+  constructor
+  · intro hd
+    rw [repairT_eq_guarded fact_nodeclaim_lookup_skips_empty_provider_id] at hd
+    obtain ⟨c', hc', hn, hne, hpid, _, _⟩ := repairTWith_deleted i c.name hd
+    have := huniq c' hc' hn
+    subst this
+    exact hne (hpid ▸ hp)
+  · intro pct
+    unfold repairTargetMayDelete
+    rw [Bool.eq_false_iff]
+    intro h
+    simp only [List.any_eq_true, Bool.and_eq_true, beq_iff_eq] at h
+    obtain ⟨c', hc', ⟨hn, hof⟩, _⟩ := h
+    have := huniq c' hc' hn
+    subst this
+    unfold claimIsOfNode at hof
+    simp [hp] at hof
+
+/-- **C16_repair_target_frame** — NodeClaims that do not carry the Node's provider id decide nothing (with or
+    without the early return of the lookup). -/
+theorem C16_repair_target_frame (flag : Bool) (i : RepairTIn) (extra : List TClaim) (h : ∀ c ∈ extra, c.pid ≠ i.nodePid) :
+    repairTWith flag { i with claims := i.claims ++ extra } = repairTWith flag i := by
+  have hf : nodeClaimsForWith flag { i with claims := i.claims ++ extra } = nodeClaimsForWith flag i := by
+    unfold nodeClaimsForWith
+    simp only
+    split
+    · rfl
+    · rw [List.filter_append]
+      have : extra.filter (fun c => c.pid == i.nodePid) = [] := by
+        rw [List.filter_eq_nil_iff]
+        intro c hc
+        simpa using h c hc
+      rw [this, List.append_nil]
+  unfold repairTWith
+  rw [hf]
+  rfl
+
+/-- at most one NodeClaim is deleted per reconcile -/
+theorem C16_repair_target_at_most_one (flag : Bool) (i : RepairTIn) : (repairTWith flag i).deleted.length ≤ 1 := by
+  unfold repairTWith
+  split
+  · simp
+  · split
+    · simp only
+      split <;> simp
+    · simp
+
+/-- an unhealthy Node (toleration lasted, it is the pool's only Node) without provider id, next to one NodeClaim
+    that is still launching -/
+def repairTargetWitnessUnguarded : RepairTIn :=
+  { policies := [{ type := "BadNode", status := "False", toleration := 1800 }],
+    node := { pool := "a", conds := [{ type := "BadNode", status := "False", since := 1000 }] }, nodePid := "",
+    claims := [{ name := "nc-launching", pid := "", pool := some "a" }], others := [], now := 2800,
+    claimListFault := false, nodeListFault := .none, patchFault := .none, deleteFault := .none }
+
+/-- **C16_repair_target_needs_the_guard** — the early return is what the property rests on: a lookup that lists
+    by the Node's provider id without it resolves a Node that has no provider id to the launching NodeClaim and
+    node repair deletes it, which the specification forbids (machine-checked negation on a concrete witness;
+    corpus/c16.repair_target/001). -/
+theorem C16_repair_target_needs_the_guard :
+    (repairTWith false repairTargetWitnessUnguarded).deleted = ["nc-launching"] ∧
+    repairTargetDeletesOk documentedUnhealthyPercent repairTargetWitnessUnguarded
+      (repairTWith false repairTargetWitnessUnguarded).deleted = false ∧
+    (repairTWith true repairTargetWitnessUnguarded).deleted = [] := by decide
+
 /-! ### Node repair over an evolving cluster (one controller, many reconciles, Nodes terminating in between) -/
 
 /-- **C16_repair_seq** — in any run (any cluster, any interleaving of reconciles — with any Node-list / Delete
@@ -619,5 +732,21 @@ example : totalDeletes (runSeq seqPolicies (seqPool 2)
 /-- … and is repaired once they are gone (1 of 8) -/
 example : totalDeletes (runSeq seqPolicies (seqPool 2)
     (seqEvents ++ [.setCond 5 { type := "BadNode", status := "False", since := 2900 }, .gone 0, .gone 1, .reconcile 5 9000 .none .none])) = 3 := by decide
+
+/-- the cluster of `repairWitness 2800 4` with NodeClaims: the Node's own ("nc-own", provider id "i-1"), another
+    Node's, and one still launching (no provider id) -/
+def repairTargetWitness (nodePid : String) : RepairTIn :=
+  { policies := (repairWitness 2800 4).policies, node := (repairWitness 2800 4).node, nodePid := nodePid,
+    claims := [{ name := "nc-launching", pid := "", pool := some "a" }, { name := "nc-own", pid := "i-1", pool := some "a" },
+               { name := "nc-other", pid := "i-2", pool := some "a" }],
+    others := (repairWitness 2800 4).others, now := 2800, claimListFault := false, nodeListFault := .none,
+    patchFault := .none, deleteFault := .none }
+example : (repairT (repairTargetWitness "i-1")).deleted = ["nc-own"] ∧ (repairT (repairTargetWitness "i-1")).patched = ["nc-own"] := by decide
+example : repairTargetDeletesOk documentedUnhealthyPercent (repairTargetWitness "i-1") ["nc-own"] = true := by decide
+/-- the same unhealthy Node without a provider id: nothing is touched, and the oracle rejects a Delete of the
+    launching NodeClaim (what a lookup by the empty provider id would resolve the Node to) -/
+example : repairT (repairTargetWitness "") = {} := by decide
+example : repairTargetDeletesOk documentedUnhealthyPercent (repairTargetWitness "") ["nc-launching"] = false := by decide
+example : repairTargetDeletesOk documentedUnhealthyPercent (repairTargetWitness "i-1") ["nc-other"] = false := by decide
 
 end Karp.C16
